@@ -197,6 +197,8 @@ func sample(r runner20) []string {
 	return out
 }
 
+func compileName(op Op20) string { return fmt.Sprintf("Compile %s max=%d", op.Mode, op.Max) }
+
 func compileOpts(op Op20) []compose.GraphCompileOption {
 	var opts []compose.GraphCompileOption
 	if op.Mode == "dag" {
@@ -344,7 +346,7 @@ func runGraph20(c CaseC20) *result20 {
 			}
 		case "compile":
 			var r compose.Runnable[string, string]
-			cl := guard20("Compile "+op.Mode, func() error {
+			cl := guard20(compileName(op), func() error {
 				var err error
 				r, err = g.Compile(context.Background(), compileOpts(op)...)
 				return err
@@ -582,7 +584,7 @@ func runChain20(c CaseC20) *result20 {
 			}
 		case "compile":
 			var r compose.Runnable[string, string]
-			cl := guard20("Compile", func() error {
+			cl := guard20(compileName(op), func() error {
 				var err error
 				r, err = ch.Compile(context.Background(), compileOpts(op)...)
 				return err
@@ -783,7 +785,7 @@ func runWorkflow20(c CaseC20) *result20 {
 				}
 			}
 			var r compose.Runnable[string, string]
-			cl := guard20("Compile", func() error {
+			cl := guard20(compileName(op), func() error {
 				var err error
 				r, err = wf.Compile(context.Background(), compileOpts(op)...)
 				return err
@@ -921,6 +923,31 @@ func checkC20Inner(c CaseC20) (*vkit.Failure, vkit.Meta) {
 			}
 			if (r.isAdd[i] || isCompile) && r.calls[i].err == nil {
 				return &vkit.Failure{Kind: "error-not-sticky", Sig: "error-not-sticky", Msg: fmt.Sprintf("call #%d %q failed (%v) but later call #%d %q succeeded", firstFail, r.calls[firstFail].op, r.calls[firstFail].err, i, r.calls[i].op)}, m
+			}
+		}
+	}
+	// (3b) the same Compile (same options, nothing successfully added in between) gives the same verdict:
+	// a rejected construction is not accepted at the second attempt
+	for a := 0; a < len(r.compileIdx); a++ {
+		for b := a + 1; b < len(r.compileIdx); b++ {
+			i, j := r.compileIdx[a], r.compileIdx[b]
+			if r.calls[i].op != r.calls[j].op {
+				continue
+			}
+			changed := false
+			for k := i + 1; k < j; k++ {
+				if r.calls[k].err == nil {
+					changed = true
+				}
+			}
+			if changed {
+				continue
+			}
+			if r.calls[i].err != nil && r.calls[j].err == nil {
+				return &vkit.Failure{Kind: "compile-verdict-changes", Sig: "compile-verdict-changes", Msg: fmt.Sprintf("Compile call #%d rejected the construction (%v); the identical Compile call #%d on the same builder accepted it", i, r.calls[i].err, j)}, m
+			}
+			if r.calls[i].err != nil {
+				m.Labels = append(m.Labels, "rejected-compile-repeated")
 			}
 		}
 	}
@@ -1174,6 +1201,10 @@ func genC20(t *rapid.T) CaseC20 {
 	}
 	// the sequence always ends with a Compile; often followed by more calls and another Compile
 	c.Ops = append(c.Ops, compile())
+	if rapid.IntRange(0, 2).Draw(t, "compileAgain") == 0 {
+		// the very same Compile once more: same construction, same options, same outcome
+		c.Ops = append(c.Ops, c.Ops[len(c.Ops)-1])
+	}
 	if rapid.IntRange(0, 1).Draw(t, "after") == 0 {
 		switch c.Builder {
 		case "graph":
